@@ -36,6 +36,7 @@ Inductive op :=
 | BB (b : blk)                   (* Confirm::best_block_updated(header of b, height of b) *)
 | BD (fork_point : blk)          (* Listen::blocks_disconnected(fork point) *)
 | TU (txid : Z)                  (* Confirm::transaction_unconfirmed *)
+| RL                             (* the monitor is serialized and read back (a restart) *)
 | AU (dep : Z) (tag : Z).        (* ChannelMonitor::update_monitor with a counterparty-commitment update that
                                     arrives when transaction [dep] (the funding spend) is already confirmed:
                                     [fail_htlcs_from_update_after_funding_spend]. An update applied BEFORE
@@ -85,8 +86,10 @@ Definition step (st : state) (o : op) : state :=
              (done_txids st) (emitted st)
       else st
   | BD f =>
+      (* the fork point is the last block KEPT: [retain(|entry| entry.height <= new_height)] *)
       mkSt (b_height f) (b_hash f) (filter (fun e => e_height e <=? b_height f) (awaiting st))
            (done_txids st) (emitted st)
+  | RL => st                     (* everything modelled here is part of the serialization *)
   | TU id =>
       match find (fun e => e_txid e =? id) (awaiting st) with
       | Some e0 =>
@@ -132,3 +135,79 @@ Definition op_safe (st : state) (o : op) : bool :=
 (** [Confirm::get_relevant_txids] (monitor part) *)
 Definition relevant_txids (st : state) : list (Z * Z * Z) :=
   map (fun e => (e_txid e, e_height e, e_hash e)) (awaiting st).
+
+(** ** The confirmed, not yet locked alternative funding (a splice or RBF transaction)
+
+    [alternative_funding_confirmed : Option<(Txid, u32)>] is kept NEXT TO the awaiting list and is retracted
+    by its own comparisons: [blocks_disconnected] takes it away iff [conf_height > new_height] (recorded
+    at the fork point's height or below: kept), [transaction_unconfirmed] iff the txid is the recorded
+    one; the reorg branch of [best_block_updated] does not look at it. [pending] are the txids of the
+    [pending_funding] scopes. *)
+Record xstate := mkX { core : state; alt : option (Z * Z) }.
+
+Definition alt_of_txs (pending : list Z) (b : blk) (txs : list tx) (a : option (Z * Z)) : option (Z * Z) :=
+  match a with
+  | Some _ => a
+  | None =>
+      match find (fun t => existsb (Z.eqb (t_id t)) pending) txs with
+      | Some t => Some (t_id t, b_height b)
+      | None => None
+      end
+  end.
+
+Definition xstep (pending : list Z) (x : xstate) (o : op) : xstate :=
+  mkX (step (core x) o)
+      match o with
+      | TC b txs => alt_of_txs pending b txs (alt x)
+      | BD f => match alt x with
+                | Some (t, h) => if b_height f <? h then None else Some (t, h)
+                | None => None
+                end
+      | TU id => match alt x with
+                 | Some (t, h) => if t =? id then None else Some (t, h)
+                 | None => None
+                 end
+      | BB _ | RL | AU _ _ => alt x
+      end.
+
+Definition xrun (pending : list Z) (x : xstate) (ops : list op) : xstate := fold_left (xstep pending) ops x.
+
+(** ** Which transactions of one call the monitor looks at ([ChannelMonitorImpl::filter_block])
+
+    A transaction is kept iff one of its inputs spends a watched outpoint, or ANY of its inputs -- at any
+    position -- spends an output of a transaction kept earlier in the same call ([matched_txn], by
+    txid). [f_watch]: the outputs of the transaction the monitor registers in [outputs_to_watch] once
+    it has processed it. *)
+Record ftx := mkF { f_id : Z; f_ins : list (Z * Z); f_watch : list Z }.
+
+Definition spends_watched (w : list (Z * Z)) (t : ftx) : bool :=
+  existsb (fun i => existsb (fun o => (fst o =? fst i) && (snd o =? snd i)) w) (f_ins t).
+Definition spends_matched (m : list Z) (t : ftx) : bool :=
+  existsb (fun i => existsb (Z.eqb (fst i)) m) (f_ins t).
+
+Fixpoint filter_block (w : list (Z * Z)) (m : list Z) (txs : list ftx) : list ftx :=
+  match txs with
+  | [] => []
+  | t :: r =>
+      if spends_watched w t || spends_matched m t then t :: filter_block w (f_id t :: m) r
+      else filter_block w m r
+  end.
+
+(** the same transactions handed over one call each ([Confirm::transactions_confirmed] per transaction):
+    only watched outpoints count, and what is watched grows with every transaction processed *)
+Fixpoint per_tx (w : list (Z * Z)) (txs : list ftx) : list ftx :=
+  match txs with
+  | [] => []
+  | t :: r =>
+      if spends_watched w t then t :: per_tx (w ++ map (fun v => (f_id t, v)) (f_watch t)) r
+      else per_tx w r
+  end.
+
+(** positions (from 0) of the kept transactions, as the hook [verif_filter_block] reports them *)
+Fixpoint filter_positions (w : list (Z * Z)) (m : list Z) (pos : Z) (txs : list ftx) : list Z :=
+  match txs with
+  | [] => []
+  | t :: r =>
+      if spends_watched w t || spends_matched m t then pos :: filter_positions w (f_id t :: m) (pos + 1) r
+      else filter_positions w m (pos + 1) r
+  end.
